@@ -96,7 +96,7 @@ def simulation(args_dict):
 
             # Expand model if necessary.
             # Deprecated, will be removed in v1.9.0.
-            gopts = cfg['simulation_options']['gridding_opts']
+            gopts = cfg['simulation_options'].get('gridding_opts', {})
             expand = gopts.pop('expand', None)
             if expand is not None:
                 interface = gopts.pop('seasurface', 0.0)
